@@ -129,7 +129,40 @@ def job_wrapper_sizes():
 
 
 # ------------------------------------------------------------------------------------------------ whole cf_radial_solver over symbolic data with stub kernels (buffer discipline)
-def job_whole(stack, nondim):
+
+def real_malformed(solve_for, nondim):
+    """REAL radial_solver with the malformed solve_for: are the caller's arrays intact after the call?"""
+    code = (
+        "import sys, json\n"
+        "sys.modules['diffeqpy'] = None\n"
+        "import numpy as np\n"
+        "from TidalPy.RadialSolver import radial_solver\n"
+        "from TidalPy.utilities.spherical_helper import calculate_mass_gravity_arrays\n"
+        "N = 40\n"
+        "r = np.linspace(0.1, 6.0e6, N); rho = np.full(N, 3500.)\n"
+        "vol, mass, g = calculate_mass_gravity_arrays(r, rho)\n"
+        "K = np.full(N, 1e11); mu = np.full(N, 5e10 + 1e8j)\n"
+        "orig = [a.copy() for a in (r, rho, g, K, mu)]\n"
+        "out = {}\n"
+        "try:\n"
+        "    s = radial_solver(r, rho, g, K, mu, 1e-5, 3500., ('solid',), (False,), (False,), (6.0e6,), degree_l=2, solve_for=%r, nondimensionalize=%r)\n"
+        "    out['returned'] = bool(s.success)\n"
+        "except Exception as e:\n"
+        "    out['raised'] = '%%s: %%s' %% (type(e).__name__, str(e)[:80])\n"
+        "out['changed'] = [nm for nm, a, o in zip(('radius', 'density', 'gravity', 'bulk', 'shear'), (r, rho, g, K, mu), orig) if not np.allclose(a, o, rtol=1e-12)]\n"
+        "out['radius_top'] = float(r[-1])\n"
+        "print('@@RESULT@@' + json.dumps(out))\n") % (solve_for, bool(nondim))
+    import subprocess, tempfile
+    with tempfile.TemporaryDirectory(prefix='verif_c06_') as td:
+        p = subprocess.run([replay.VENV_PY, '-c', code], capture_output=True, text=True, cwd=td, env=dict(os.environ, PYTHONPATH=REPO), timeout=900)
+    if '@@RESULT@@' not in p.stdout:
+        crashed = p.returncode < 0 or p.returncode > 1
+        return crashed, 'real radial_solver(solve_for=%r): the interpreter ended with return code %s %s' % (solve_for, p.returncode, p.stderr[-200:])
+    out = json.loads(p.stdout.split('@@RESULT@@')[-1])
+    return bool(out['changed']), 'real radial_solver(solve_for=%r, nondimensionalize=%r): %s' % (solve_for, bool(nondim), json.dumps(out))
+
+
+def job_whole(stack, nondim, solve_for=('tidal', 'loading'), malformed=None):
     """The WHOLE transliterated cf_radial_solver is executed for a concrete stack (types / static flags; 4 + k slices per layer; concrete rational radii, every other number a symbol)
     with recording stubs for the kernels it calls and for the CyRK solver object. Indices and sizes are concrete, so every buffer access is checked against the extent it was
     allocated / declared with, and the data flow of the integration phase is compared with what it must be."""
@@ -227,6 +260,14 @@ def job_whole(stack, nondim):
             self.complex_love_ptr = CArr((3 * int(num_ytypes),), 'complex_love')
             self.success, self.message = None, None
             rec['solution'] = self
+    if malformed is not None:
+        # malformed-argument runs use the REAL constructor of the solution object (its memoryview casts raise for an empty extent, like Cython's)
+        ctor, _ = loader.load_pyx(SOLVER, ['RadialSolverSolution.__init__'], {'allocate_mem': allocate_mem, 'MAX_NUM_Y': 6, 'NAN': rNAN})
+
+        class Sol:
+            def __init__(self, *a):
+                rec['solution'] = self
+                ctor['RadialSolverSolution.__init__'](self, *a)
 
     def nd_stub(kind):
         def f(*a):
@@ -238,7 +279,7 @@ def job_whole(stack, nondim):
           'cf_collapse_layer_solution': real_col['cf_collapse_layer_solution'], 'cf_find_num_solutions': lambda t, st, inc: c02.nsol(t, st), 'cf_find_starting_conditions': find_start,
           'cf_non_dimensionalize_physicals': nd_stub('nondim'), 'cf_redimensionalize_physicals': nd_stub('redim'), 'cf_redimensionalize_radial_functions': nd_stub('redim_rf'),
           'cf_solve_upper_y_at_interface': iface, 'cf_top_to_bottom_interface_bc': st_rev, 'find_love_cf': lambda out, surf, gs: rec['love'].append([surf[i] for i in range(6)]),
-          'isnan': lambda v: False}
+          'isnan': lambda v: False, 'isinf': lambda v: False}
     ns.update(pyx2py.RUNTIME)
     ns.update({k_: v_ for k_, v_ in loader.base_ns().items() if k_ not in ns})
     mod = ast.Module(body=[loader._Rewrite(code).visit(fn)], type_ignores=[])
@@ -256,14 +297,31 @@ def job_whole(stack, nondim):
         upper = list(bounds)
     pyx2py.VIOLATIONS.clear()
     pyx2py.STRICT[0] = False
+    raised = None
     try:
         sol = f(total, radius, density, gravity, bulk, shear, Q.sym('w'), Q.sym('rho_bulk'), L, [t for (t, st, inc) in stack], [st for (t, st, inc) in stack], [inc for (t, st, inc) in stack],
-                [Q(u) for u in upper], 2, ('tidal', 'loading'), False, 'rk45', Q.sym('rtol'), Q.sym('atol'), True, 500000, 500, 500, Q(0), True, nondim, False, False)
+                [Q(u) for u in upper], 2, solve_for, False, 'rk45', Q.sym('rtol'), Q.sym('atol'), True, 500000, 500, 500, Q(0), True, nondim, False, False)
+    except (TypeError, ValueError, AttributeError, NotImplementedError, RuntimeError) as e:
+        if malformed is None or isinstance(e, pyx2py.ExtentError):
+            raise
+        raised, sol = e, None
     finally:
         viol = list(pyx2py.VIOLATIONS)
         pyx2py.STRICT[0] = True
     tag = ' / '.join(c02.kname(t, st) for (t, st, inc) in stack) + (' [nondimensionalize]' if nondim else '')
     results = []
+    if malformed is not None:
+        def rp_mal(md):
+            ok_, det_ = real_malformed(solve_for, nondim)
+            if ok_:
+                return True, det_
+            return replay.api_or_witness([SOLVER], lambda md2: real_malformed(solve_for, nondim), 'cf_radial_solver (current source, transliterated, stub kernels) called with solve_for=%r raises %s '
+                                         'after %d scaling and %d restoring call(s)' % (solve_for, type(raised).__name__ if raised else 'nothing', rec['nondim'], rec['redim']))(md)
+        results.append(discharge(Obligation('cf_radial_solver called with the malformed solve_for=%r (%s)%s: it ends with a Python exception or a solution object, and at that exit every in-place scaling of the '
+                                            'caller\'s arrays has been undone' % (solve_for, malformed, ' [nondimensionalize]' if nondim else ''),
+                                            z3.And(z3.BoolVal(raised is not None or sol is not None), z3.BoolVal(rec['nondim'] == rec['redim']), z3.BoolVal(not viol)), [], with_axioms=False, with_dens=False,
+                                            replay=rp_mal, key='malformed:%s' % malformed)))
+        return {'results': results, 'encoded': loader.ENCODED, 'label': 'malformed ' + malformed}
 
     def ob(name, conds, key, A=()):
         results.append(discharge(Obligation('cf_radial_solver whole run [%s]: %s' % (tag, name), z3.And(*conds) if conds else z3.BoolVal(True), list(A), with_axioms=False, with_dens=False,
@@ -478,12 +536,18 @@ def main():
     for stack, nd in (([(0, False, False), (0, False, False)], False), ([(0, False, False), (1, True, False), (0, False, False)], True), ([(1, False, False), (0, True, False)], False),
                       ([(0, True, True)], True), ([(0, False, False), (1, False, False), (1, True, False), (0, True, False)], False)):
         jobs.append((job_whole, {'stack': stack, 'nondim': nd}))
+    # malformed solve_for values: every kind of value the tuple-typed argument admits (empty, a non-string entry first / later, None entry, too many entries, unknown name, wrong case)
+    for sf, kind in (((), 'empty'), ((1,), 'non-string'), (('tidal', 2.5), 'non-string-later'), (('tidal', None), 'none-entry'), (('tidal',) * 6, 'too-many'), (('bogus',), 'unknown-name'),
+                     (('Tidal', 'LOADING'), 'upper-case')):
+        for nd in (True, False):
+            jobs.append((job_whole, {'stack': [(0, False, False)], 'nondim': nd, 'solve_for': sf, 'malformed': kind}))
     dyn = [({'layers': [['solid', True, False], ['liquid', False, False]], 'solve_for': ['tidal']}, 'liquid-dynamic-surface'),
            ({'layers': [['solid', True, False], ['liquid', True, False]], 'solve_for': ['tidal']}, 'liquid-static-surface'),
            ({'layers': [['solid', False, False]], 'solve_for': ['tidal', 'loading', 'free']}, 'solid-3types'),
            ({'layers': [['solid', True, False]], 'solve_for': ['tidal'], 'nondimensionalize': False}, 'solid-dimensional'),
            ({'layers': [['solid', False, False]], 'solve_for': ['tidal'], 'max_num_steps': 5}, 'step-budget'),
-           ({'solve_for': ['bogus']}, 'invalid-solve_for'), ({'solve_for': ['tidal'] * 6}, 'too-many-solve_for'), ({'break': 'nan_density'}, 'nan-bulk-density'),
+           ({'solve_for': ['bogus']}, 'invalid-solve_for'), ({'solve_for': ['tidal'] * 6}, 'too-many-solve_for'), ({'break': 'nan_density'}, 'nan-bulk-density'), ({'break': 'inf_density'}, 'inf-bulk-density'), ({'break': 'nan_frequency'}, 'nan-frequency'),
+           ({'layers': [['solid', False, False]], 'solve_for': ['tidal'], 'expected_size': 1}, 'expected-size-1'), ({'layers': [['solid', False, False]], 'solve_for': ['tidal'], 'expected_size': 2}, 'expected-size-2'),
            ({'layers': [['solid', True, False], ['solid', True, False]], 'break': 'thin_layer'}, 'thin-layer'), ({'break': 'bad_layer_type'}, 'bad-layer-type'), ({'break': 'bad_method'}, 'bad-method'),
            ({'layers': [['solid', False, False]], 'solve_for': ['tidal'], 'max_num_steps': 5, 'raise_on_fail': True}, 'step-budget-raise')]
     if TIER == 'thorough':
